@@ -366,6 +366,9 @@ def _paths_related_to_moves(viol, moves, case=None):
     rel = [m[3] for m in moves] + [m[4] for m in moves]
     if case is not None:
         rel = list(_rename_closure(case, [m[3] for m in moves])) + [m[4] for m in moves]
+        # the same object crossing the boundary again (moved out as X, later moved back in as Y): Y is a name of that object too
+        again = [mm[3] for mm in _abs_moves(case, ("rename", "rename_dir")) if any(_related(mm[4], m[4]) for m in moves)]
+        rel += list(_rename_closure(case, again))
     return all(any(_related(_unconf(p), q) for q in rel) for p in paths)
 
 
